@@ -280,6 +280,9 @@ def finish(run: Run, seed: int = 0, selftest: Optional[dict] = None) -> int:
         "modules_parsed": len(run.project.modules),
         "functions_indexed": len(run.project.functions),
         "classes_indexed": len(run.project.classes),
+        "normal_form": "every module analysed in the source normal form of sa/normal.py (equivalence transformations N1-N18)",
+        "helpers_inlined": len(getattr(run.project, "inline_log", []) or []),
+        "benign_drift_recognised": list(getattr(run.project, "drift_log", []) or [])[:20],
     }
     if selftest is not None:
         cov["selftest"] = selftest
@@ -292,6 +295,8 @@ def finish(run: Run, seed: int = 0, selftest: Optional[dict] = None) -> int:
         "assumptions": run.assumptions + [
             "name/MRO based resolution: calls through values of unknown type are listed under 'unresolved', never judged",
             "rules are structural necessary conditions of the property; exit 0 does not establish the behaviour",
+            "the passes of sa/normal.py and sa/drift.py are equivalence transformations of Python source under their stated side conditions "
+            "(NumPy calls do not rebind attributes of repository objects; argument expressions of the repository are free of side effects)",
         ],
         "wall_s": round(time.time() - run.t0, 3),
         "violations": len(unlisted),
